@@ -1801,6 +1801,12 @@ def m_char(ex, m, args, callee):
         return digit_value(c, radix)[0]
     if k == 'is_ascii_digit':
         return simp(z3.And(c >= 48, c <= 57))
+    if k == 'is_ascii_hexdigit':
+        return simp(z3.Or(z3.And(c >= 48, c <= 57), z3.And(c >= 65, c <= 70), z3.And(c >= 97, c <= 102)))
+    if k == 'is_ascii_alphabetic':
+        return simp(z3.Or(z3.And(c >= 65, c <= 90), z3.And(c >= 97, c <= 122)))
+    if k == 'len_utf8':
+        return z3.If(c < 0x80, 1, z3.If(c < 0x800, 2, z3.If(c < 0x10000, 3, 4)))
     raise Unmodelled('char::%s on symbolic char' % k)
 
 
@@ -2130,6 +2136,61 @@ def m_numrat_rem(ex, m, args, callee):
     if is_conc(a) and is_conc(b):
         return Fraction(a) - Fraction(b) * q
     return n_sub(a, n_mul(b, zreal(q) if not is_conc(q) else Fraction(q)))
+
+
+@model(r'^NumRat::from_integer$|^<NumRat as From<NumInt>>::from$')
+def m_numrat_from_integer(ex, m, args, callee):
+    n = val(args[0])
+    while isinstance(n, Struct) and len(n.fields) == 1:
+        n = deref_all(n.fields[0])
+    if is_conc(n):
+        return Fraction(int(n))
+    return z3.ToReal(n) if z3.is_int(n) else n
+
+
+@model(r'^NumRat::is_integer$')
+def m_numrat_is_integer(ex, m, args, callee):
+    v = val(args[0])
+    if is_conc(v):
+        return Fraction(v).denominator == 1
+    v = zreal(v)
+    return z3.IsInt(v)
+
+
+@model(r'^NumRat::(floor|ceil|trunc|round|fract)$')
+def m_numrat_rounding(ex, m, args, callee):
+    # num-rational: floor / ceil toward -inf / +inf, trunc toward zero, round half away from zero, fract = self - trunc;
+    # each result is again a ratio
+    v = val(args[0])
+    op = m.group(1)
+    if is_conc(v):
+        f = Fraction(v)
+        fl = f.numerator // f.denominator
+        tr = fl if f >= 0 or f.denominator == 1 else fl + 1
+        if op == 'floor':
+            return Fraction(fl)
+        if op == 'ceil':
+            return Fraction(-((-f.numerator) // f.denominator))
+        if op == 'trunc':
+            return Fraction(tr)
+        if op == 'fract':
+            return f - tr
+        a = abs(f) + Fraction(1, 2)
+        r = a.numerator // a.denominator
+        return Fraction(r if f >= 0 else -r)
+    v = zreal(v)
+    fl = z3.ToReal(z3.ToInt(v))
+    ce = -z3.ToReal(z3.ToInt(-v))
+    tr = z3.If(v >= 0, fl, ce)
+    if op == 'floor':
+        return fl
+    if op == 'ceil':
+        return ce
+    if op == 'trunc':
+        return tr
+    if op == 'fract':
+        return v - tr
+    return z3.If(v >= 0, z3.ToReal(z3.ToInt(v + z3.RealVal('1/2'))), -z3.ToReal(z3.ToInt(-v + z3.RealVal('1/2'))))
 
 
 @model(r'^<&NumRat as Neg>::neg$')
@@ -2929,10 +2990,75 @@ def m_from_local_datetime(ex, m, args, callee):
         return Struct('LocalResult', [some(ex, mk_datetime(n_sub(naive.fields[0], zone_offset_ns(ex, zone, 0)), zone))])
     # named zone: the local time may not exist (gap); otherwise some instant whose local time it is
     if ex.choose(2, 'local time exists in the zone') == 1:
+        ex.env['tz_gap_taken'] = True
         return Struct('LocalResult', [none(ex)])
     t = ex.fresh('instant', 'Int')
     ex.assume(n_eq(n_add(t, zone_offset_ns(ex, zone, t)), naive.fields[0]))
     return Struct('LocalResult', [some(ex, mk_datetime(t, zone))])
+
+
+@model(r'^<(Tz|FixedOffset|Z|T) as TimeZone>::offset_from_utc_datetime$')
+def m_offset_from_utc(ex, m, args, callee):
+    """the offset in force in the zone at the given *UTC* reading"""
+    zone = dup(val(args[0]))
+    naive = val(args[1])
+    if not (isinstance(naive, Struct) and naive.name == 'NaiveDateTime'):
+        raise Unmodelled('offset_from_utc_datetime of %r' % (naive,))
+    if isinstance(zone, Struct) and zone.name == 'FixedOffset':
+        return zone
+    return Struct('TzOffset', [zone, zone_offset_ns(ex, zone, naive.fields[0])])
+
+
+@model(r'^<TzOffset as Offset>::fix$|^<FixedOffset as Offset>::fix$')
+def m_offset_fix(ex, m, args, callee):
+    o = val(args[0])
+    if isinstance(o, Struct) and o.name == 'FixedOffset':
+        return o
+    ns = o.fields[1]
+    ex.assume(zint(ns) % 10 ** 9 == 0)           # zone offsets are whole seconds
+    return Struct('FixedOffset', [zint(ns) / 10 ** 9])
+
+
+@model(r'^<NaiveDateTime as (Sub|Add)<FixedOffset>>::(sub|add)$')
+def m_naive_shift(ex, m, args, callee):
+    nd, off = val(args[0]), val(args[1])
+    d = n_mul(off.fields[0], 10 ** 9)
+    v = n_sub(nd.fields[0], d) if m.group(2) == 'sub' else n_add(nd.fields[0], d)
+    if not ex.branch(dt_in_range(v), 'NaiveDateTime stays in range'):
+        ex.panic('`NaiveDateTime - FixedOffset` out of range')
+    return Struct('NaiveDateTime', [v])
+
+
+@model(r'^<(Tz|FixedOffset|Z|T) as TimeZone>::from_utc_datetime$')
+def m_from_utc_datetime(ex, m, args, callee):
+    zone = dup(val(args[0]))
+    naive = val(args[1])
+    if not (isinstance(naive, Struct) and naive.name == 'NaiveDateTime'):
+        raise Unmodelled('from_utc_datetime of %r' % (naive,))
+    return mk_datetime(naive.fields[0], zone)
+
+
+@model(r'^DateTime::timestamp_millis$')
+def m_dt_timestamp_millis(ex, m, args, callee):
+    """whole milliseconds since the epoch, rounded toward minus infinity (chrono: secs * 1000 + subsec_millis)"""
+    d = val(args[0])
+    t = d.fields[0]
+    return int(t) // 10 ** 6 if is_conc(t) else zint(t) / 10 ** 6      # z3 integer division floors for a positive divisor
+
+
+@model(r'^<(FixedOffset|Tz|Z|T) as TimeZone>::(timestamp_millis_opt|timestamp_nanos|timestamp_opt)$')
+def m_tz_from_timestamp(ex, m, args, callee):
+    zone = dup(val(args[0]))
+    k = m.group(2)
+    if k == 'timestamp_millis_opt':
+        t = n_mul(args[1], 10 ** 6)
+    elif k == 'timestamp_nanos':
+        return mk_datetime(args[1], zone)
+    else:
+        t = n_add(n_mul(args[1], 10 ** 9), args[2])
+    if ex.branch(dt_in_range(t), 'timestamp within chrono range'):
+        return Struct('LocalResult', [some(ex, mk_datetime(t, zone))])
+    return Struct('LocalResult', [none(ex)])
 
 
 @model(r'^LocalResult::(earliest|latest|single)$')
@@ -2962,6 +3088,19 @@ def m_naive_and_time(ex, m, args, callee):
     if not (isinstance(date, Struct) and date.name == 'NaiveDate' and isinstance(time, Struct) and time.name == 'NaiveTime'):
         return Opaque('NaiveDateTime')
     return Struct('NaiveDateTime', [n_add(n_mul(date.fields[0], DAY_NS), time.fields[0])])
+
+
+@model(r'^NaiveDate::and_hms_opt$')
+def m_naive_and_hms_opt(ex, m, args, callee):
+    date = val(args[0])
+    h, mi, se = args[1], args[2], args[3]
+    if not (isinstance(date, Struct) and date.name == 'NaiveDate'):
+        return some(ex, Opaque('NaiveDateTime'))
+    okc = b_and(n_lt(h, 24), b_and(n_lt(mi, 60), n_lt(se, 60)))
+    if ex.branch(okc, 'hms in range'):
+        tod = n_mul(n_add(n_add(n_mul(h, 3600), n_mul(mi, 60)), se), 10 ** 9)
+        return some(ex, Struct('NaiveDateTime', [n_add(n_mul(date.fields[0], DAY_NS), tod)]))
+    return none(ex)
 
 
 @model(r'^DateTime::with_time$')
